@@ -177,6 +177,8 @@ def check_fold(res, facts):
                             return "T[%s]" % to_q(t[2][1], il)
                         if isinstance(t, tuple) and t[0] == "arg" and t[1] == 2 and len(t[2]) == 1 and t[2][0][0] == "idx":
                             return "P[%s]" % to_q(t[2][0][1], il)
+                        if isinstance(t, tuple) and t[0] == "call" and t[1] == "index" and len(t) == 3 and t[2][0] == A(2):
+                            return "P[%s]" % to_q(t[2][1], il)
                         return None
                     got = to_q(val, vleaf)
                     twob = Q.var("b") * Q.const(2)
@@ -258,6 +260,12 @@ def check_fold(res, facts):
             if len(got) != 4:
                 problems.append("expected four table writes (two initial, two per step), found %d" % len(got))
             else:
+                # the second write of a step may read back the first (dp[b] - dp[b + 2^i]) or reuse its value
+                # (prev - upper): express it over the table as it was before the step
+                hi_name = "D[%s]" % (bq + p2i)
+                if hi_name in got[3][2].vars() and got[2][2].is_poly() and qeq(got[2][1], bq + p2i):
+                    got[3] = (got[3][0], got[3][1], got[3][2].subst(hi_name, got[2][2].n))
+                want[3] = (bq, D(bq) - D(bq) * G(Q.var("i")))
                 for (bb, di, dv), (wi, wv) in zip(got, want):
                     if not (qeq(di, wi) and qeq(dv, wv)):
                         problems.append("write dp[%s] = %s; the eq-table recurrence has dp[%s] = %s" % (di, dv, wi, wv))
@@ -299,8 +307,15 @@ def check_fold(res, facts):
                 problems.append("accumulated value is %s, expected eq[idx & (2^w-1)] * v" % show(val)[:200])
             else:
                 focus = gz[2][0][2][0]
-                w = C("len", focus)
+                # w = number of variables of the eq table = len(focus); when focus is cut as point[..k] or
+                # point.split_at(k).0 its length is k (the cut panics otherwise), so k is accepted as w too
+                ws = [C("len", focus)]
+                if isinstance(focus, tuple) and focus[0] == "call" and focus[1] == "index" and len(focus) == 3 and isinstance(focus[2][1], tuple) and focus[2][1][:2] == ("agg", "RangeTo"):
+                    ws.append(focus[2][1][2][0])
+                if isinstance(focus, tuple) and focus[0] == "call" and focus[1] == "split_at" and len(focus) == 4 and focus[3] == ("0",):
+                    ws.append(focus[2][1])
                 idx = gz[2][1]
+                w = next((w_ for w_ in ws if isinstance(idx, tuple) and idx[0] == "bin" and idx[1] == "BitAnd" and ("bin", "Sub", ("bin", "Shl", 1, w_), 1) in (idx[2], idx[3])), ws[0])
                 okmask = isinstance(idx, tuple) and idx[0] == "bin" and idx[1] == "BitAnd" and ("bin", "Sub", ("bin", "Shl", 1, w), 1) in (idx[2], idx[3])
                 old = (idx[2] if idx[3] == ("bin", "Sub", ("bin", "Shl", 1, w), 1) else idx[3]) if okmask else None
                 if not okmask:
